@@ -12,6 +12,9 @@ CHECKS = {
  "C16": {"level": "proof", "technique": TECH,
          "text": "capability provenance proved for every transformation / post-processing / finalizer type of the registries: the opt-in fields of constructed objects are the caller's arguments (object identity), never document values, through _instantiate_transformation, item from_dict, pipeline from_dict/from_yaml and the nested loaders; fetch and exec sites proved dominated by their gates (allow flag or documented env var; real path equal to or below realpath(base)+os.sep); effect-site INVENTORY over sigma/processing",
          "note": "assumed: os.path.realpath/dirname, os.environ, yaml.safe_load, Jinja2 are external; constructors abstract; one element per list (loops treat elements alike); document keys other than the opt-in keys represented by one generic key; bounded stand-in (injected real documents under an audit hook) reported separately"},
+ "C18": {"level": "other", "technique": TECH + "; IPv6 clause: bounded enumeration (stand-in)",
+         "text": "IPv4: SigmaCIDRExpression.expand proved (loop invariant) to return exactly [first prefixlen//8 octets + '.' + wildcard] per sub-network of network.subnets((8-p%8)%8); arithmetic lemmas for all 33 prefix lengths: sound, complete, irredundant on integer match sets; native-CIDR conversion proved to pass the normalised network values. IPv6: bounded only (129 prefix lengths x 10 addresses), with a recorded known finding",
+         "note": "assumed: ipaddress contracts (subnets, prefixlen, dotted-quad rendering), pattern-matching semantics of 'o1.….og.*' on dotted quads; IPv6 branch not under contract (RFC 5952 rendering is outside the assumed library contracts) - bounded stand-in, never counted as proved"},
 }
 NOT_APPLICABLE = {
  "C20": "quantifies over interpreter processes, PYTHONHASHSEED values and draws of the random module for the whole load+convert output: no contract on a single call can express 'another process'; deciding it needs repeated subprocess execution, a different technique family (DESIGN.md section 11)",
